@@ -521,11 +521,94 @@ func c19FullSyncOnStart(c *ctx) {
 	}
 }
 
+// ---- two sync handlers on one source (the stock layout: store -> index and store -> replica): a transient failure of one
+// handler's queue must not keep the other destination from getting what the source accepted ----
+type c19flakyQueue struct {
+	sorted.KeyValue
+	mu   sync.Mutex
+	fail map[string]int // key -> Set calls still to fail
+}
+
+func (q *c19flakyQueue) Set(key, value string) error {
+	q.mu.Lock()
+	n := q.fail[key]
+	if n > 0 {
+		q.fail[key] = n - 1
+	}
+	q.mu.Unlock()
+	if n > 0 {
+		return errC19Fault
+	}
+	return q.KeyValue.Set(key, value)
+}
+
+func c19TwoHandlers(c *ctx) {
+	for round := 0; round < 2; round++ {
+		src, dstA, dstB := &memory.Storage{}, &memory.Storage{}, &memory.Storage{}
+		ctxb := context.Background()
+		qA := &c19flakyQueue{KeyValue: sorted.NewMemoryKeyValue(), fail: map[string]int{}}
+		qB := &c19flakyQueue{KeyValue: sorted.NewMemoryKeyValue(), fail: map[string]int{}}
+		nameA, nameB := fmt.Sprintf("two-a-%d-%d", c.seed, round), fmt.Sprintf("two-b-%d-%d", c.seed, round)
+		c19mu.Lock()
+		c19queues[nameA], c19queues[nameB] = qA, qB
+		c19mu.Unlock()
+		ld := newLoader()
+		ld.set("/src/", src)
+		ld.set("/dsta/", dstA)
+		ld.set("/dstb/", dstB)
+		hA, errA := blobserver.CreateHandler("sync", ld, jsonconfig.Obj{"from": "/src/", "to": "/dsta/", "queue": map[string]any{"type": "verifq", "name": nameA}})
+		hB, errB := blobserver.CreateHandler("sync", ld, jsonconfig.Obj{"from": "/src/", "to": "/dstb/", "queue": map[string]any{"type": "verifq", "name": nameB}})
+		if errA != nil || errB != nil {
+			c.rep.Notes = append(c.rep.Notes, fmt.Sprintf("two sync handlers: %v %v", errA, errB))
+			return
+		}
+		shA, shB := hA.(*server.SyncHandler), hB.(*server.SyncHandler)
+		// the queue of the handler registered first (round 0) or second (round 1) fails once for every other upload
+		flaky := qA
+		if round == 1 {
+			flaky = qB
+		}
+		var all []blob.Ref
+		failed := 0
+		for i := 0; i < 8; i++ {
+			content := fmt.Sprintf("one source, two sync destinations %d %d %d", round, i, c.seed)
+			br := blob.RefFromString(content)
+			if i%2 == 1 {
+				flaky.mu.Lock()
+				flaky.fail[br.String()] = 1
+				flaky.mu.Unlock()
+				failed++
+			}
+			blobserver.Receive(ctxb, src, br, strings.NewReader(content)) // may report the hook's error; the source has the blob
+			all = append(all, br)
+		}
+		var atSrc []blob.Ref
+		src.StatBlobs(ctxb, all, func(sb blob.SizedRef) error { atSrc = append(atSrc, sb.Ref); return nil })
+		count := func(dst blobserver.Storage) int {
+			n := 0
+			dst.StatBlobs(ctxb, atSrc, func(blob.SizedRef) error { n++; return nil })
+			return n
+		}
+		for i := 0; i < 1000 && (count(dstA) < len(atSrc) || count(dstB) < len(atSrc)); i++ {
+			shA.VerifWake()
+			shB.VerifWake()
+			time.Sleep(10 * time.Millisecond)
+		}
+		c.rep.SpecChecks++
+		c.count("scenarios", "two handlers on one source")
+		if a, b := count(dstA), count(dstB); a < len(atSrc) || b < len(atSrc) {
+			c.violation(-1, "c19-second-handler-starved", fmt.Sprintf("one source with two sync handlers, queue.Set of the %s one failing once for %d of %d uploads: the source holds %d blobs, after the failures stopped and 10 s destination A has %d and destination B %d",
+				map[int]string{0: "first", 1: "second"}[round], failed, len(all), len(atSrc), a, b), nil)
+		}
+	}
+}
+
 func runC19(c *ctx) {
 	c.rep.Rule = "scenarios over a sync handler created by CreateHandler(\"sync\") on instrumented source, destination and queue (shared rows survive restarts): 6-40 uploads (fresh, repeated, the zero-length blob, two concurrent uploads of one blob with the first one's queue.Set held), " +
 		"per-blob fault plans on source fetch (error, wrong size, corrupt bytes), destination write (error, wrong size), queue.Set / queue.Delete (error), crashes at chosen points (before queue.Set, before the destination write, before queue.Delete, before a fetch) and at random moments, restarts over the same queue, " +
 		"then faults stop and the handler must drain; one scenario with more than 1000 pending blobs (two copy batches); traces are replayed on the model, snapshots compared; ListMissingDestinationBlobs on random sorted enumerations; non-trivial = distinct trace with at least one fault or crash, or a merge with both missing and present blobs"
 	c19FullSyncOnStart(c)
+	c19TwoHandlers(c)
 	nScen := c.n(40, 400)
 	for si := 0; si < nScen; si++ {
 		big := si == 0
